@@ -1,6 +1,7 @@
 """C03 — every written XML scenario file is valid against the shipped CommonRoad 2020a XSD (and the reader accepts it).
 
-model     lean/CRModel/XsdModel.lean (validator), lean/Gen/XsdScenario.lean (schema term, regenerated from the XSD by
+model     lean/CRModel/CRXmlWDoc.lean (complete tree encoders), lean/CRModel/CRXmlWOk.lean (decidable "schema-expressible"),
+          lean/CRModel/XsdModel.lean (validator), lean/Gen/XsdScenario.lean (schema term, regenerated from the XSD by
           harness/translate/xsd.py on every run), lean/CRModel/XmlNum.lean (number formatters), lean/CRModel/CRXml.lean
           (node builders as child-name sequences)
 theorems  lean/CRProps/C03.lean
@@ -54,7 +55,7 @@ TRUSTED = [
 REQUIRED_BUCKETS = ["doc/valid", "doc/reader-ok", "num/exponent-repr-small", "num/exponent-repr-large", "num/length<1e-4",
                     "mutant/valid", "mutant/invalid", "mutant/swap", "mutant/number", "mutant/ref", "mutant/id", "mutant/enum",
                     "builder/lanelet", "builder/dynamicObstacle", "builder/state",
-                    "builder/dyn-shape-default", "builder/dyn-shape-offcentre-or-rotated", "builder/signalState", "precision/1", "precision/12",
+                    "tree/compared", "tree/expressible", "builder/dyn-shape-default", "builder/dyn-shape-offcentre-or-rotated", "builder/signalState", "precision/1", "precision/12",
                     "num/orientation<1e-4", "fmt/float_to_str"]
 WORKERS = {"quick": 1, "thorough": 8}
 
@@ -479,6 +480,199 @@ def builder_items(sc, pps, writer_location, writer_tags, root):
     return items, ctx_tags
 
 
+# ------------------------------------------------------------------------------------------------ whole-tree correspondence
+
+def _num(v):
+    """A number as the writer's formatters see it: str(v) and the exact value."""
+    from fractions import Fraction
+    f = float(v)
+    fr = Fraction(*abs(f).as_integer_ratio())
+    return [str(v), math.copysign(1.0, f) < 0, str(fr.numerator), str(fr.denominator)]
+
+
+def _num64(v):
+    import numpy as np
+    return _num(np.float64(v))
+
+
+def _pt(a):
+    return [_num64(c) for c in a]
+
+
+def _shape1(s):
+    from commonroad.geometry.shape import Circle, Polygon, Rectangle
+    import numpy as np
+    if isinstance(s, Rectangle):   # length / width: decimal_to_str(raw), orientation: decimal_to_str(np.float64), center: float_to_str
+        return ["rect", _num(s.length), _num(s.width), _num64(s.orientation), _num64(s.center[0]), _num64(s.center[1])]
+    if isinstance(s, Circle):
+        return ["circ", _num64(s.radius), _num64(s.center[0]), _num64(s.center[1])]
+    if isinstance(s, Polygon):
+        return ["poly", [[_num64(v[0]), _num64(v[1])] for v in s.vertices]]
+    raise TypeError(type(s))
+
+
+def _shape(s):
+    from commonroad.geometry.shape import ShapeGroup
+    return [_shape1(x) for x in s.shapes] if isinstance(s, ShapeGroup) else [_shape1(s)]
+
+
+def _val(v):
+    from commonroad.common.util import Interval
+    return ["i", _num64(v.start), _num64(v.end)] if isinstance(v, Interval) else ["e", _num64(v)]
+
+
+def _timev(t):
+    from commonroad.common.util import Interval
+    return ["i", int(t.start), int(t.end)] if isinstance(t, Interval) else ["e", int(t)]
+
+
+def _state_data(st, goal_lanelets=None):
+    import numpy as np
+    from commonroad.geometry.shape import Shape
+    out = []
+    for a in st.used_attributes:
+        v = getattr(st, a)
+        if a == "position":
+            if goal_lanelets is not None and len(goal_lanelets) > 0:
+                out.append(["pos", ["ll", [int(i) for i in goal_lanelets]]])
+            elif type(v) in (np.ndarray, list):
+                out.append(["pos", ["pt", _pt(v)]])
+            elif isinstance(v, Shape):
+                out.append(["pos", ["sh", _shape(v)]])
+        elif a == "time_step":
+            out.append(["time", _timev(v)])
+        else:
+            out.append(["val", a, _val(v)])
+    return out
+
+
+def _signal(s):
+    d = {"t": int(s.time_step)}
+    for k, a in (("horn", "horn"), ("il", "indicator_left"), ("ir", "indicator_right"), ("bl", "braking_lights"),
+                 ("hz", "hazard_warning_lights"), ("fb", "flashing_blue_lights")):
+        d[k] = bool(getattr(s, a)) if hasattr(s, a) else None
+    return d
+
+
+def _occ(o):
+    return {"shape": _shape(o.shape), "t": _timev(o.time_step)}
+
+
+def doc_data(sc, pps, loc, tags, writer_meta, precision, date):
+    """The data the XML writer reads off the objects, in the writer's iteration orders (CR.XmlW.DocD)."""
+    import commonroad
+    from commonroad.common.common_lanelet import LineMarking
+    from commonroad.prediction.prediction import SetBasedPrediction, TrajectoryPrediction
+    from commonroad.scenario.obstacle import DynamicObstacle, EnvironmentObstacle, PhantomObstacle, StaticObstacle
+    from commonroad.scenario.scenario import Location
+    from commonroad.scenario.traffic_light import TrafficLightDirection
+    loc = loc if loc is not None else Location()
+
+    def lm(x):
+        return x.value if isinstance(x, LineMarking) and x is not LineMarking.UNKNOWN else None
+    lanelets = []
+    for la in sc.lanelet_network.lanelets:
+        stop = None
+        if la.stop_line:
+            sl = la.stop_line
+            stop = {"pts": [_pt(sl.start), _pt(sl.end)] if (sl.start is not None or sl.end is not None) else None,
+                    "marking": str(sl.line_marking.name.lower()) if sl.line_marking else None,
+                    "signs": [int(i) for i in sl.traffic_sign_ref] if sl.traffic_sign_ref is not None else [],
+                    "lights": [int(i) for i in sl.traffic_light_ref] if sl.traffic_light_ref is not None else []}
+        lanelets.append({
+            "id": int(la.lanelet_id), "left": [_pt(v) for v in la.left_vertices], "right": [_pt(v) for v in la.right_vertices],
+            "lml": lm(la.line_marking_left_vertices), "lmr": lm(la.line_marking_right_vertices),
+            "pred": [int(i) for i in la.predecessor], "succ": [int(i) for i in la.successor],
+            "adjl": [int(la.adj_left), bool(la.adj_left_same_direction)] if la.adj_left else None,
+            "adjr": [int(la.adj_right), bool(la.adj_right_same_direction)] if la.adj_right else None,
+            "stop": stop, "types": [str(t.value) for t in la.lanelet_type],
+            "oneway": [str(u.value) for u in la.user_one_way] if la.user_one_way else [],
+            "bidir": [str(u.value) for u in la.user_bidirectional] if la.user_bidirectional else [],
+            "signs": [int(i) for i in la.traffic_signs] if la.traffic_signs else [],
+            "lights": [int(i) for i in la.traffic_lights] if la.traffic_lights else []})
+    signs = [{"id": int(sg.traffic_sign_id),
+              "elements": [[str(e.traffic_sign_element_id.value), [str(v) for v in e.additional_values]] for e in sg.traffic_sign_elements],
+              "pos": _pt(sg.position[:2]) if sg.position is not None else None,
+              "virtual": bool(sg.virtual) if sg.virtual is not None else None} for sg in sc.lanelet_network.traffic_signs]
+    lights = []
+    for tl in sc.lanelet_network.traffic_lights:
+        cyc = tl.traffic_light_cycle
+        lights.append({"id": int(tl.traffic_light_id),
+                       "cycle": {"elements": [[int(e.duration), e.state.value] for e in cyc.cycle_elements],
+                                 "offset": int(cyc.time_offset) if cyc.time_offset is not None else None} if cyc is not None else None,
+                       "pos": _pt(tl.position[:2]) if tl.position is not None else None,
+                       "direction": tl.direction.value if tl.direction is not TrafficLightDirection.ALL else None,
+                       "active": bool(tl.active) if tl.active is not None else None})
+    inters = [{"id": int(it.intersection_id),
+               "incomings": [{"id": int(i.incoming_id), "lanelets": [int(x) for x in i.incoming_lanelets],
+                              "right": [int(x) for x in i.successors_right] if i.successors_right else [],
+                              "straight": [int(x) for x in i.successors_straight] if i.successors_straight else [],
+                              "left": [int(x) for x in i.successors_left] if i.successors_left else [],
+                              "leftOf": int(i.left_of) if i.left_of else None} for i in it.incomings],
+               "crossings": [int(x) for x in it.crossings] if it.crossings is not None else []}
+              for it in sc.lanelet_network.intersections]
+    statics, dynamics, phantoms, envs = [], [], [], []
+    for o in sc.obstacles:
+        if isinstance(o, DynamicObstacle):
+            pred = None
+            if isinstance(o.prediction, SetBasedPrediction):
+                pred = ["occ", [_occ(x) for x in o.prediction.occupancy_set]]
+            elif isinstance(o.prediction, TrajectoryPrediction):
+                pred = ["traj", [_state_data(x) for x in o.prediction.trajectory.state_list]]
+            dynamics.append({"id": int(o.obstacle_id), "type": o.obstacle_type.value, "shape": _shape(o.obstacle_shape),
+                             "init": _state_data(o.initial_state),
+                             "sig0": _signal(o.initial_signal_state) if o.initial_signal_state is not None else None,
+                             "pred": pred, "series": [_signal(x) for x in o.signal_series] if o.signal_series is not None else []})
+        elif isinstance(o, StaticObstacle):
+            statics.append({"id": int(o.obstacle_id), "type": o.obstacle_type.value, "shape": _shape(o.obstacle_shape),
+                            "init": _state_data(o.initial_state)})
+        elif isinstance(o, EnvironmentObstacle):
+            envs.append({"id": int(o.obstacle_id), "type": o.obstacle_type.value, "shape": _shape(o.obstacle_shape)})
+        elif isinstance(o, PhantomObstacle):
+            phantoms.append({"id": int(o.obstacle_id),
+                             "occ": [_occ(x) for x in o.prediction.occupancy_set] if isinstance(o.prediction, SetBasedPrediction) else None})
+    problems = []
+    for pp in pps.planning_problem_dict.values():
+        goals = []
+        for gi, g in enumerate(pp.goal.state_list):
+            ll = pp.goal.lanelets_of_goal_position
+            goals.append(_state_data(g, ll[gi] if ll is not None and gi in ll else []))
+        problems.append({"id": int(pp.planning_problem_id), "init": _state_data(pp.initial_state), "goals": goals})
+    geo = env = None
+    if loc.geo_transformation is not None:
+        g = loc.geo_transformation
+        geo = {"ref": g.geo_reference, "x": _num(g.x_translation), "y": _num(g.y_translation), "rot": _num(g.z_rotation),
+               "scale": _num(g.scaling)}
+    if loc.environment is not None:
+        e = loc.environment
+        env = {"h": int(e.time.hours), "m": int(e.time.minutes), "tod": e.time_of_day.value, "weather": e.weather.value,
+               "underground": e.underground.value}
+    return {"precision": precision, "dt": _num(sc.dt), "version": commonroad.SCENARIO_VERSION, "author": writer_meta[0],
+            "affiliation": writer_meta[1], "source": writer_meta[2], "benchmark": str(sc.scenario_id), "date": date,
+            "location": {"geoNameId": int(loc.geo_name_id), "lat": _num(loc.gps_latitude), "lon": _num(loc.gps_longitude),
+                         "geo": geo, "env": env},
+            "tags": [t.value for t in tags], "lanelets": lanelets, "signs": signs, "lights": lights, "intersections": inters,
+            "statics": statics, "dynamics": dynamics, "phantoms": phantoms, "envs": envs, "problems": problems}
+
+
+def tree_diff(a, b, path=""):
+    """First difference between two ["name", attrs, text, kids] trees (None if equal)."""
+    if a[0] != b[0]:
+        return f"{path}: element <{a[0]}> vs <{b[0]}>"
+    here = f"{path}/{a[0]}"
+    if a[1] != b[1]:
+        return f"{here}: attributes {a[1]} vs {b[1]}"
+    if a[2] != b[2]:
+        return f"{here}: text {a[2]!r} vs {b[2]!r}"
+    if len(a[3]) != len(b[3]):
+        return f"{here}: children {[k[0] for k in a[3]]} vs {[k[0] for k in b[3]]}"
+    for i, (x, y) in enumerate(zip(a[3], b[3])):
+        d = tree_diff(x, y, f"{here}[{i}]")
+        if d:
+            return d
+    return None
+
+
 # ------------------------------------------------------------------------------------------------ one document
 
 def xsd_key(err):
@@ -607,6 +801,25 @@ def run_doc(ctx, spec, mutants=8, correspond=True):
         for (b, p, actual), model in zip(items, out):
             ctx.tag(f"builder/{b}")
             ctx.compare({"kind": "kids", "builder": b, "params": p}, actual, model, f"children of <{b}> vs CR.XmlW.{b}Kids")
+    # ---- correspondence B2: the whole tree — model encoder (CR.XmlW.docNode) on the data read off the objects vs the writer
+    try:
+        data = doc_data(sc, pps, loc, tags, (spec["author"], spec["affiliation"], spec["source"]), spec["precision"], root.get("date"))
+    except Exception as e:  # noqa  -- objects outside the modelled data (reported through the oracle / other ops)
+        data = None
+        ctx.tag("tree/data-unavailable")
+    if data is not None:
+        tres = ctx.driver.ask("C03", "tree", {"doc": data})
+        real = tree_json(root)
+        diff = tree_diff(real, tres["tree"])
+        ctx.tag("tree/compared")
+        ctx.compare({"kind": "tree", "spec": spec}, "equal" if diff is None else f"writer vs model: {diff}", "equal",
+                    "tree written by XMLFileWriter vs CR.XmlW.docNode on the same data")
+        ctx.compare({"kind": "tree-valid", "spec": spec}, {"valid": ok}, {"valid": tres["valid"]},
+                    "lxml on the written file vs CR.Xsd.validDoc on the model tree")
+        # the hypotheses of C03_valid_doc (schema-expressible, unique ids, resolvable references) hold on the generated scenario
+        ctx.tag("tree/expressible" if tres["expressible"] else "tree/not-expressible")
+        ctx.compare({"kind": "expressible", "spec": spec}, True, tres["expressible"],
+                    f"generated scenario vs CR.C03.Expressible (decidable hypotheses of C03_valid_doc); failing clauses {tres['why']}")
     # ---- correspondence C: mutants, both validators
     r = ctx.rng
     for _ in range(mutants):
